@@ -33,6 +33,12 @@ CLAIMS = {
     "C20": dict(tech=TECH, ref="§5-C20",
                 text="Proof: phase writes one record per input record in order (phase_lines); each output record is the input's twelve columns (strand included) followed by ps:Z/ht:Z carrying the values of the FIRST TSV line naming the read ('none' when absent or unphased) followed by the input's optional fields (phase_record, lookup_first); the output is again a well-formed GAF line (phase_wellformed). Correspondence: real add_phase_info on generated GAFs (both strands, stable/unstable paths, all tag shapes, plain/BGZF) x TSVs with H1/H2/none/missing/duplicated reads.",
                 note=BASE + "phase_wellformed carries the hypothesis that the last kept optional field does not end in a blank (the counterexample without it is in the file). Records without repeated tags (K1 of C16). TSV lines have >= 4 columns."),
+    "C11": dict(tech=TECH, ref="§5-C11",
+                text="Proof over ALL schedules of a transition-system model of the collector protocol (workers put/flush/exit, parent get/timeout/liveness check): whenever the parent leaves the loop normally every record of the group has been received exactly once (done_complete, by a conservation + per-worker FIFO invariant), the written order is the sorted priority order = input order (done_output_range), without an abnormal worker termination the parent never fails (no_spurious_failure), from every quiescent state the parent terminates (quiescent_terminates), worker work is bounded (worker_step_decreases), and batching concatenates to the input (groups_flatten). Correspondence: the REAL realign_gaf and wfa_alignment driven through a scripted multiprocessing stand-in; exhaustive DFS over all interleavings of 2 workers x 1 record (including the timeout-while-in-flight window) and random larger schedules; each schedule replayed through the Lean model; output compared with the single-core file produced with the real multiprocessing.",
+                note=BASE + "multiprocessing runtime modelled, not verified: Queue FIFO, get(timeout) raises Empty only when nothing is readable, exit 0 implies a flushed feeder. Hook GAFTOOLS_VERIF_BATCH_SIZE makes small batches. harness/fakemp.py is trusted."),
+    "C13": dict(tech=TECH, ref="§5-C13",
+                text="Proof over ALL schedules with worker deaths at any point: if a worker died with anything undelivered (at least its sentinel) the parent never reports success (death_detected, from done_complete's invariant), `failed` is reached only when some worker has a non-zero exit code, a dead worker's loss is permanent, and from every quiescent state after such a death the parent's drain ends in `failed`, i.e. exit status 1, never a hang (quiescent_death_fails, quiescent_terminates). Correspondence: real realign_gaf under scripted schedules with one death at every possible point (exhaustive for 2 workers x 1 record, cut at the tier's limit in quick) and random larger ones with several exit codes.",
+                note=BASE + "'A point of its batch' is read as any point up to the delivery of the worker's sentinel; a worker killed after everything reached the pipe leaves a complete output and success is reported (stated). Channel operations are atomic with respect to death: a kill inside a pipe write or while holding the queue lock is CPython/OS behaviour the model cannot exhibit (partial in that sense)."),
 }
 
 IN_PROGRESS = "check under construction in this round; not claimed until its proofs and correspondence run green"
